@@ -432,6 +432,103 @@ def faulty (Q : Quirks) (P : Params) (vals : List (Option Int)) (tr : Train) (d 
   | [] => runToEnd Q P vals tr d
   | (j, i, torn) :: rest => faulty Q P vals tr (crashSession Q P vals tr d j i torn) rest
 
+/-! ## the orders in which the calls of one update may come
+
+`save_model_and_optimizer_with_info` is two pipelines — `makedirs, create a temp file, write the state
+dict into it, os.replace it onto the checkpoint path` — one for the model, one for the optimizer. The
+pinned code runs them as `saveOps` (both temp files complete, then the two renames); a rewrite may
+finish the first pipeline before it starts the second, create both temp files first, write the
+optimizer first, … Every *interleaving* of the two pipelines (each keeping its own order) is an order
+the model admits: `saveOrders`. Crash safety does not depend on which one is used
+(`Lemmas/CheckpointOrder.lean`: `c16_rec_step_any_order` quantifies over all of them).
+
+Calls that change nothing are not observable in the files a killed process leaves behind, so an
+observed sequence of file-system mutations is matched against the model's orders *modulo* them:
+`makedirs` (directories are not modelled) and `open(csv, "a")` of a history file that exists
+(`FsOp.noop`, `effective`). The matching (`crashMatch`, `fullMatch`) lives here, not in the driver,
+and `c16_crashMatch_rec` proves that every sequence it accepts leaves a recoverable disk. -/
+
+/-- All interleavings of two lists (each keeps its own order). -/
+def shuffles {α : Type} : List α → List α → List (List α)
+  | [], bs => [bs]
+  | a :: as, [] => [a :: as]
+  | a :: as, b :: bs =>
+      (shuffles as (b :: bs)).map (a :: ·) ++ (shuffles (a :: as) bs).map (b :: ·)
+termination_by as bs => as.length + bs.length
+
+/-- The model's pipeline: temp file `freshTmp`, content = the model's state dict. -/
+def pipeM (P : Params) (d : Disk) (e : Nat) (s : St) : List FsOp :=
+  let t1 := freshTmp d.files
+  [.mkdirs, .mktemp t1, .write t1 (.model s.1), .replace t1 (P.mpath e)]
+
+/-- The optimizer's pipeline: temp file `freshTmp + 1`. -/
+def pipeO (P : Params) (d : Disk) (e : Nat) (s : St) : List FsOp :=
+  let t2 := freshTmp d.files + 1
+  [.mkdirs, .mktemp t2, .write t2 (.optim s.2), .replace t2 (P.opath e)]
+
+/-- Every order of the eight calls of a save in which each pipeline keeps its own order. `saveOps`
+(the pinned code's order) is one of them. -/
+def saveOrders (P : Params) (d : Disk) (e : Nat) (s : St) : List (List FsOp) :=
+  shuffles (pipeM P d e s) (pipeO P d e s)
+
+/-- `mainOps` for every save order: history row first or checkpoint first as the code decides. -/
+def mainOrders (Q : Quirks) (P : Params) (vals : List (Option Int)) (k : Nat) (d : Disk)
+    (s : St) : List (List FsOp) :=
+  if infoFirst Q P vals k d then (saveOrders P d (k + 1) s).map (histOps Q d (k + 1) ++ ·)
+  else (saveOrders P d (k + 1) s).map (· ++ histOps Q d (k + 1))
+
+/-- The clean-up list `cl` with the paths of `hint` (removals that were observed, in the observed
+order) first; the clean-up order is a Python set order. Only members of `cl` are ever taken. -/
+def reorder (cl hint : List Path) : List Path :=
+  hint.filter (fun p => cl.contains p) ++ cl.filter (fun p => !hint.contains p)
+
+/-- Every sequence of mutating calls the model admits for the update of epoch `k+1`, the clean-up
+in the order suggested by `rm`. Empty when the update refuses. -/
+def updateOrders (Q : Quirks) (P : Params) (vals : List (Option Int)) (k : Nat) (d : Disk)
+    (s : St) (rm : List Path) : List (List FsOp) :=
+  match planUpdate Q P vals k d s with
+  | .error _ => []
+  | .ok (_, cl) => (mainOrders Q P vals k d s).map (fun m => opsOf m (reorder cl rm))
+
+/-- Calls that leave every disk descended from one with `csvExists` as it is. -/
+def FsOp.noop (csvExists : Bool) : FsOp → Bool
+  | .mkdirs => true
+  | .openAppend => csvExists
+  | _ => false
+
+/-- The calls of `ops` that can change the disk `d` (or a disk reached from it). -/
+def effective (d : Disk) (ops : List FsOp) : List FsOp :=
+  ops.filter (fun op => !(op.noop d.csv.isSome))
+
+def removalsOf (ops : List FsOp) : List Path :=
+  ops.filterMap (fun op => match op with | .remove p => some p | _ => none)
+
+/-- `obs` = the effective calls a process was seen to complete in the update it was killed in;
+`tornOp = some op'`: it was killed inside the next call, which left `op'` (a half-written temp file,
+a half-written history row). Returns the admitted order (effective calls only) that begins this way. -/
+def crashMatch (orders : List (List FsOp)) (d : Disk) (obs : List FsOp) (tornOp : Option FsOp) :
+    Option (List FsOp) :=
+  (orders.map (effective d)).find? (fun L =>
+    obs.isPrefixOf L &&
+      match tornOp with
+      | none => true
+      | some op' => ((L[obs.length]?).bind tear) == some op')
+
+/-- The disk a matched crash leaves. -/
+def crashDisk (d : Disk) (L obs : List FsOp) (tornOp : Option FsOp) : Disk :=
+  match tornOp with
+  | none => exec d obs
+  | some _ => tornDisk tear d L obs.length
+
+/-- What a process may still do to the disk while the interrupt that kills it unwinds
+(`except BaseException: os.unlink(tmp); raise`): remove temp files, nothing else. -/
+def unwindOk (ops : List FsOp) : Bool :=
+  ops.all (fun op => match op with | .remove (.tmp _) => true | _ => false)
+
+/-- `obs` = the effective calls of a completed update: is it one of the admitted orders? -/
+def fullMatch (orders : List (List FsOp)) (d : Disk) (obs : List FsOp) : Bool :=
+  (orders.map (effective d)).any (fun L => L == obs)
+
 /-! ## metrics in memory and as recorded in the history file
 
 `update_for_epoch` is handed a metric `x` (a float); `save_info_to_hist` writes `"{:.4e}".format(x)`; a
